@@ -26,7 +26,7 @@ rep = {"applied": rc == 0}
 # effective patch against this HEAD (after a possible 3-way merge), used for revert/re-apply below
 sh("git add -N . ", cwd=repo)
 eff = "/tmp/vs-%s/eff.diff" % name
-open(eff, "w").write(sh("git diff", cwd=repo)[1])
+open(eff, "w").write(sh("git diff HEAD", cwd=repo)[1]); sh("git reset -q", cwd=repo)
 patch = eff
 rc, out = sh("go build ./... && go build -tags verif ./...", cwd=repo); print("build rc=%d %s" % (rc, out[-1500:])); rep["build_ok"] = rc == 0
 rc, out = sh("go test -vet=off -count=1 -timeout 25m ./... 2>&1 | grep -E '^(--- FAIL|FAIL|ok|panic)' ", cwd=repo)
